@@ -145,6 +145,8 @@ func cnBad() []byte {
 // over, so after a number of them the remaining schedules are not run
 var cnExpired int
 
+var undrainedMux *diam.ServeMux
+
 // lateGate: the first request after a termination is made while finish() still holds the reader lock
 // (true) or well after the exit path has completed (false)
 var lateGate = true
@@ -171,15 +173,25 @@ func runCN(id int, c *cnCase, via string) cnLine {
 	panicked := false
 	mux := diam.NewServeMux()
 	stop := make(chan struct{})
-	go func() {
-		for {
-			select {
-			case <-mux.ErrorReports():
-			case <-stop:
-				return
-			}
+	if via == "client+undrained" {
+		// an application that never reads ErrorReports(): one mux for all scenarios of this kind, so that its
+		// report slot is occupied from the first undecodable message on; terminations are signalled all the same
+		if undrainedMux == nil {
+			undrainedMux = diam.NewServeMux()
 		}
-	}()
+		mux = undrainedMux
+		l.Conform = false
+	} else {
+		go func() {
+			for {
+				select {
+				case <-mux.ErrorReports():
+				case <-stop:
+					return
+				}
+			}
+		}()
+	}
 	var dconn diam.Conn
 	holding := make(chan struct{}, 4)
 	release := make(chan struct{})
@@ -434,6 +446,48 @@ func runCN(id int, c *cnCase, via string) cnLine {
 			mc.FeedErr(&memnet.NetErr{Msg: "scripted read error"})
 			mc.WaitClosed(3 * time.Second)
 			term = true
+		case "lclosew": // local Close while another goroutine is blocked in a Write (the peer stopped reading)
+			mu.Lock()
+			dc := dconn
+			mu.Unlock()
+			if dc == nil {
+				mc.Close()
+				term = true
+				break
+			}
+			inWrite := make(chan struct{}, 1)
+			mc.OnWrite = func(k int, b []byte) memnet.WriteOutcome {
+				select {
+				case inWrite <- struct{}{}:
+				default:
+				}
+				mc.WaitClosed(5 * time.Second) // accepts nothing until the transport is closed under it
+				return memnet.WriteOutcome{N: 0, Err: memnet.ErrClosed}
+			}
+			go func() {
+				defer func() { recover() }()
+				diam.NewMessage(272, 0x80, 4, 77, 77, dict.Default).WriteTo(dc)
+			}()
+			select {
+			case <-inWrite:
+			case <-time.After(2 * time.Second):
+			}
+			lg.add(cnEvent{Ev: "lclose"})
+			closed := make(chan struct{})
+			go func() {
+				dc.Close()
+				close(closed)
+			}()
+			select {
+			case <-closed:
+			case <-time.After(2 * time.Second):
+				hung = true // Close did not return
+			}
+			mc.WaitClosed(time.Second)
+			if !mc.Closed() {
+				mc.Close() // release the blocked writer
+			}
+			term = true
 		case "lclose":
 			mu.Lock()
 			dc := dconn
@@ -673,6 +727,11 @@ func CloseNotify(a Args) error {
 		for _, how := range []string{"eof", "rerr", "lclose", "x"} {
 			id++
 			out.Emit(runCNWatchdog(id, how))
+		}
+		// nobody reads the error reports: the second and third undecodable message find the slot occupied
+		for _, sc := range [][]string{{"mh", "x"}, {"mh", "m", "xt", "cn"}, {"cn", "m", "rerr"}, {"mh", "x", "cn"}} {
+			id++
+			out.Emit(runCN(id, &cnCase{Sched: sc}, "client+undrained"))
 		}
 	}
 	return nil
